@@ -14,6 +14,33 @@ for n in range(0, 12):
                            defs={"VP_MODE": 2, "VP_N": n}, unwind=13, include_real=["util/coding.h"],
                            functions=["ldb_varint32_read", "ldb_varint64_read"],
                            desc="readers on arbitrary bytes agree with reference decoder (accept, value, consumed)"))
+
+# ---- b/c: version_edit.c export/import vs the MANIFEST-record reference ----
+EDIT_REAL = ["version_edit.c", "util/buffer.c", "util/slice.c", "util/rbt.c", "dbformat.c"]
+EDIT_KIT = ["vp_nondet.c", "vp_mem.c", "vp_alloc_slab.c"]
+EDIT_FUNCS = ["ldb_edit_export", "ldb_edit_import", "ldb_edit_add_file", "ldb_edit_remove_file",
+              "ldb_edit_set_compact_pointer", "ldb_edit_clear", "ldb_level_slurp",
+              "ldb_buffer_varint32", "ldb_buffer_varint64", "ldb_buffer_export", "ldb_buffer_slurp",
+              "ldb_slice_slurp", "ldb_rb_tree_put", "ldb_rb_iter_next", "ldb_vector_push"]
+
+
+def edit_rt(nf, nd, nc, ks, kl, cn, tier="quick"):
+    return Obl("b.edit-roundtrip-F%d-D%d-C%d-K%d.%d-N%d" % (nf, nd, nc, ks, kl, cn), "C17/edit.c",
+               real=EDIT_REAL, kit=EDIT_KIT, include_real=["util/vector.c"],
+               defs={"VP_MODE": 0, "VP_NF": nf, "VP_ND": nd, "VP_NC": nc, "VP_KS": ks, "VP_KL": kl, "VP_CN": cn,
+                     "VP_SLAB": 96, "VP_OUTCAP": 64, "VP_VEC_CAP": 4},
+               unwind=12, unwindset={"vp_expect_bytes.0": 65},
+               timeout=600, tier=tier, functions=EDIT_FUNCS,
+               desc="export bytes == reference encoder; reference decoder and ldb_edit_import recover every field",
+               bounds="%d new files, %d deleted files, %d compact pointers, keys %d/%d bytes, comparator name %d bytes; "
+                      "scalar fields symbolic present/absent, all 64-bit values, levels 0..6" % (nf, nd, nc, ks, kl, cn))
+
+
+OBLIGATIONS.append(edit_rt(0, 0, 0, 8, 8, 2))
+OBLIGATIONS.append(edit_rt(1, 1, 1, 8, 9, 3))
+
+for x in (1, 2, 4):
+    OBLIGATIONS.append(Obl("x1-%d" % x, "C17/tmp/x1.c", real=EDIT_REAL, kit=EDIT_KIT, include_real=["util/vector.c"], defs={"VP_X": x, "VP_SLAB": 96}, unwind=12, tier="thorough"))
 META = {
     "level": "model_checking",
     "level_text": "Bounded model checking (CBMC) of lcdb's own coding.h / version_edit.c / version_set.c code: encode/decode round trips and agreement with an independently written LevelDB-format reference for every value of the symbolic fields inside the stated sizes; counterexamples are replayed natively.",
